@@ -157,6 +157,8 @@ type Result struct {
 	OrdersUsed []int `json:"orders_used,omitempty"`
 	Reads      int   `json:"reads"`
 	Switches   int   `json:"switches,omitempty"` // task switches decided by the schedule
+	TimeJumps  int   `json:"time_jumps,omitempty"`
+	TimersFired int  `json:"timers_fired,omitempty"`
 }
 
 // Tainted is set (and never cleared) when a run left something behind that the simulator
@@ -295,6 +297,7 @@ func Run(c Config, main func()) (res Result) {
 		res.Panic = taskPanic
 	}
 	res.Switches = switches
+	res.TimeJumps, res.TimersFired = nJumps, nFired
 	res.Exit = exitCode
 	res.Returned = returned
 	res.Budget = budgetHit
